@@ -177,6 +177,540 @@ HAND_LIBS = {
 }
 
 
+# ----------------------------------------------------------------------------
+# Libraries in which ONE class is shared by several users in different roles (used by C05).
+#
+# Every construct below is handled in pymoca/tree.py or ast.py by code that can reach an object of
+# the parsed tree: the copy made by flatten()'s find_class keeps the parsed tree's class as `parent`
+# (Class.__deepcopy__ puts the parent in the memo), so every lookup through the enclosing scope lands
+# in the parsed tree and stays safe only because the individual call site copies what it found.
+#
+#   place (tree.py unless noted)                               object of the parsed tree reached          library
+#   flatten: root.find_class(copy=True)                        the requested class; parent chain          all
+#   flatten_extends: find_class(extends.component),            base class, its symbols / nested classes   share:extends
+#     symbols.update / classes.update, visibility lowered      / equations, extends modification args
+#   build_instance_tree: redeclare ShortClassDefinition        replacement class                          share:redeclare
+#     scope_class.find_class(argument.component)
+#   build_instance_tree: redeclare ComponentClause             type reference of the modification         share:redeclare
+#   build_instance_tree: loop over nested classes,             nested / short classes and their           share:shortclass
+#     class modifications (Voltage(nominal = 1000))            modifications
+#   build_instance_tree: find_class(sym.type); symbol edits    component type; class_modification,        hand:comp, share:comp
+#     (class_modification, component.child[0], scope, type)    nested modification arguments
+#   flatten_symbols: sym.name, input/output stripped,          symbols of component types, `__value`      share:comp, share:shortclass,
+#     __value attributes shared, dimensions, __connector_type  of types, connector instances              share:conn
+#   FunctionExpander: node.find_class(operator)                function classes                           share:funcs
+#   ConstantReferenceApplier -> ast._find_constant_symbol      the constant's Symbol itself (NOT copied;  share:constref
+#     (_find_class without copy)                               renamed and modified in place)
+#   ast._find_class: imports, self.imports[name] = ... cache   imports dict of the class where the        share:imports
+#                                                              lookup passes (enclosing class)
+#   expand_connectors: find_class / flatten_class              connector classes                          share:conn
+#   enclosing-scope lookup through `parent`                    sibling / outer classes, shadowing         share:scope
+#
+# In each library the shared class is requested directly, and used through the construct by at least
+# two users and through at least one *other* construct (component, extends with and without
+# modification), so for every ordered pair of roles there is a history "first one, then the other".
+
+SHARE_CONSTREF = """
+package K
+  constant Real c = 3;
+  constant Real v[2] = {1, 2};
+  package Sub
+    constant Real d = 4;
+  end Sub;
+end K;
+
+model Base
+  constant Real k = 2;
+  constant Real kk(min = 0, nominal = 10) = 6;
+  parameter Real p = 1;
+  Real x(start = 1);
+equation
+  der(x) = -k * x * p;
+end Base;
+
+model ReadsDotted
+  Real y;
+equation
+  y = 3 * Base.k + K.c + K.Sub.d + Base.kk;
+end ReadsDotted;
+
+model ReadsInComp
+  ReadsDotted r;
+  Real z;
+equation
+  z = r.y + Base.k;
+end ReadsInComp;
+
+model ReadsArray
+  Real a;
+equation
+  a = K.v[1] + K.c;
+end ReadsArray;
+
+model Inherits
+  extends Base;
+  Real z;
+equation
+  z = k + x;
+end Inherits;
+
+model InheritsMod
+  extends Base(k = 5, kk(min = 1));
+end InheritsMod;
+
+model Uses
+  Base b(k = 7);
+  Base b2;
+  Real s;
+equation
+  s = b.x + b2.k;
+end Uses;
+
+model InheritsReads
+  extends Base;
+  parameter Real q = Base.k;
+  Real w;
+equation
+  w = q + K.c;
+end InheritsReads;
+"""
+
+SHARE_REDECLARE = """
+model Sub
+  parameter Real p = 1;
+  input Real u;
+  Real v;
+equation
+  v = p * u;
+end Sub;
+
+model Plain
+  Real w;
+equation
+  w = 0;
+end Plain;
+
+model Fancy
+  parameter Real q = 4;
+  Sub s(p = q, u = 2);
+  Real w(start = q);
+equation
+  w = s.v;
+end Fancy;
+
+model Host
+  replaceable model Part = Plain;
+  Part part;
+  Real t;
+equation
+  t = part.w;
+end Host;
+
+model ViaComponent
+  Host h(redeclare model Part = Fancy);
+end ViaComponent;
+
+model ViaExtends
+  extends Host(redeclare model Part = Fancy);
+end ViaExtends;
+
+model Direct
+  Fancy f(q = 6);
+  Fancy g(s.p = 9);
+end Direct;
+
+model Child
+  extends Fancy(s.p = 8);
+end Child;
+
+model Wider
+  Host h1(redeclare model Part = Fancy);
+  Host h2;
+  Fancy own;
+end Wider;
+"""
+
+SHARE_EXTENDS = """
+model Base
+  parameter Real p = 1;
+  input Real u;
+  output Real y;
+  Real b(nominal = 2);
+  model Inner
+    Real w = 2;
+  end Inner;
+  Inner i(w = 3);
+equation
+  b = p * u;
+  y = b + i.w;
+end Base;
+
+model Plain
+  extends Base;
+end Plain;
+
+model Modded
+  extends Base(p = 4, b(nominal = 9), i.w = 5);
+  Real d;
+equation
+  d = 2 * b;
+end Modded;
+
+model Hidden
+protected
+  extends Base(p = 2);
+public
+  Real e;
+equation
+  e = b;
+end Hidden;
+
+model Again
+  extends Modded(p = 6);
+  Real f;
+equation
+  f = d + b;
+end Again;
+
+model AsComp
+  Base c1(p = 7);
+  Modded c2;
+  Hidden c3;
+  Real z;
+equation
+  z = c1.y + c2.d + c3.e;
+end AsComp;
+
+model InnerUser
+  Base.Inner j(w = 8);
+  Real g;
+equation
+  g = j.w;
+end InnerUser;
+"""
+
+SHARE_SHORTCLASS = """
+class C1
+  class Voltage = Real(nominal = 1);
+  Voltage v1, v2;
+end C1;
+
+class C2
+  extends C1(Voltage(nominal = 1000));
+end C2;
+
+type Volt = Real(unit = "V", min = -10);
+
+type MilliVolt = Volt(nominal = 0.001);
+
+model Leaf
+  Volt v(start = 2);
+  MilliVolt m;
+  parameter Real k = 2;
+equation
+  v = k * m;
+  m = 1;
+end Leaf;
+
+model Alias = Leaf(k = 3);
+
+model UsesAlias
+  Alias a;
+  Leaf l(v(start = 5));
+  Real s;
+equation
+  s = a.v + l.v;
+end UsesAlias;
+
+model ExtendsAlias
+  extends Alias(v(max = 10));
+end ExtendsAlias;
+
+model UsesC
+  C1 c1;
+  C2 c2;
+  Volt own(start = 1);
+equation
+  c1.v1 = 1;
+  c1.v2 = 2;
+  c2.v1 = 3;
+  c2.v2 = 4;
+  own = 5;
+end UsesC;
+"""
+
+SHARE_IMPORTS = """
+package Lib
+  constant Real g = 9.81;
+  model Mass
+    parameter Real m = 1;
+    Real f;
+  equation
+    f = m * 10;
+  end Mass;
+  function twice
+    input Real u;
+    output Real y;
+  algorithm
+    y := 2 * u;
+  end twice;
+  package Deep
+    model Spring
+      parameter Real c = 5;
+      Real x;
+    equation
+      x = c;
+    end Spring;
+  end Deep;
+end Lib;
+
+package App
+  import Lib.*;
+  model A
+    Mass m1(m = 2);
+    Real z;
+  equation
+    z = twice(m1.f);
+  end A;
+  model B
+    Mass m2;
+    Lib.Deep.Spring s(c = 6);
+    A a;
+  end B;
+end App;
+
+model Q
+  import Lib.Mass;
+  import S = Lib.Deep.Spring;
+  Mass m;
+  S s;
+  Real w;
+equation
+  w = m.f + s.x;
+end Q;
+
+model R
+  import Lib.*;
+  import Lib.Deep.*;
+  Mass m(m = 3);
+  Spring s2;
+  Real h;
+equation
+  h = twice(m.f) + s2.x + Lib.g;
+end R;
+
+model T
+  extends Lib.Mass(m = 4);
+  Lib.Deep.Spring s3;
+end T;
+"""
+
+SHARE_FUNCS = """
+package Fn
+  function inner_f
+    input Real u;
+    output Real y;
+  algorithm
+    y := u * u;
+  end inner_f;
+  function outer_f
+    input Real u;
+    output Real y;
+  protected
+    Real t = 1;
+  algorithm
+    y := inner_f(u) + t;
+  end outer_f;
+end Fn;
+
+function top_f
+  input Real u;
+  output Real y;
+algorithm
+  y := Fn.outer_f(u) * 2;
+end top_f;
+
+model M1
+  Real a;
+equation
+  a = top_f(3);
+end M1;
+
+model M2
+  M1 m;
+  Real b;
+equation
+  b = Fn.inner_f(m.a);
+end M2;
+
+model M3
+  extends M1;
+  Real c;
+equation
+  c = Fn.outer_f(a);
+end M3;
+
+model M4
+  M2 m2;
+  M3 m3;
+  Real d;
+equation
+  d = top_f(m2.b) + Fn.inner_f(m3.c);
+end M4;
+"""
+
+SHARE_CONN = """
+connector Pin
+  Real v;
+  flow Real i;
+end Pin;
+
+connector PinZ
+  extends Pin;
+  Real z;
+end PinZ;
+
+connector RealInput = input Real;
+
+connector RealOutput = output Real;
+
+model Src
+  RealOutput y;
+equation
+  y = 1;
+end Src;
+
+model Gain
+  RealInput u;
+  RealOutput y;
+  parameter Real k = 2;
+equation
+  y = k * u;
+end Gain;
+
+model Chain
+  Src s;
+  Gain g1;
+  Gain g2(k = 3);
+equation
+  connect(s.y, g1.u);
+  connect(g1.y, g2.u);
+end Chain;
+
+model Channel
+  replaceable connector port = Pin;
+  port up;
+  PinZ down;
+equation
+  up.v = down.v;
+  up.i + down.i = 0;
+end Channel;
+
+model ChannelZ
+  extends Channel(redeclare connector port = PinZ);
+end ChannelZ;
+
+model Net
+  Channel a;
+  ChannelZ b;
+  Channel c(redeclare connector port = PinZ);
+  Pin ext;
+equation
+  connect(ext, a.up);
+  connect(a.down, b.down);
+  connect(b.up, c.up);
+end Net;
+"""
+
+SHARE_SCOPE = """
+package Outer
+  constant Real c = 3;
+  model Shared
+    parameter Real p = c;
+    Real x;
+  equation
+    x = p;
+  end Shared;
+  package In1
+    model A
+      Shared s(p = 2);
+      Real y;
+    equation
+      y = s.x + c;
+    end A;
+    model B
+      extends Shared;
+      Outer.Shared t(p = 4);
+    end B;
+  end In1;
+  package In2
+    model Shared
+      Real x = 7;
+    end Shared;
+    model C
+      Shared s;
+      In1.A a;
+    end C;
+  end In2;
+  model D
+    In1.A a(s(p = 5));
+    In2.C c;
+    In1.B b;
+  end D;
+end Outer;
+"""
+
+SHARE_COMP = """
+model Leaf
+  input Real u;
+  output Real y;
+  parameter Real k = 2;
+  Real x(start = 1);
+equation
+  der(x) = u - k * x;
+  y = x;
+end Leaf;
+
+model Row
+  Leaf l[2](each k = 3);
+  Real s;
+equation
+  l[1].u = 1;
+  l[2].u = l[1].y;
+  s = l[2].y;
+end Row;
+
+model Mid
+  Leaf a(k = 4, x(start = 5));
+  Leaf b(x.start = 6);
+  input Real u;
+equation
+  a.u = u;
+  b.u = a.y;
+end Mid;
+
+model Top
+  Mid m(a.k = 7, b.x(nominal = 8));
+  Row r;
+  Leaf own(u = 1);
+equation
+  m.u = own.y;
+end Top;
+"""
+
+SHARE_LIBS = {
+    "constref": SHARE_CONSTREF,
+    "redeclare": SHARE_REDECLARE,
+    "extends": SHARE_EXTENDS,
+    "shortclass": SHARE_SHORTCLASS,
+    "imports": SHARE_IMPORTS,
+    "funcs": SHARE_FUNCS,
+    "conn": SHARE_CONN,
+    "scope": SHARE_SCOPE,
+    "comp": SHARE_COMP,
+}
+
+
 def test_model_files():
     return sorted(glob.glob(os.path.join(common.REPO, "test", "models", "*.mo")))
 
